@@ -40,6 +40,15 @@ Theorem c19_jsonp marshal g cb p :
   wire marshal (body r) = cb ++ [lparen] ++ wire marshal (body r0) ++ [rparen].
 Proof. exact (jsonp_wrap marshal g cb p). Qed.
 
+(* the same on the executable model: the complete body bytes compared with the implementation in
+   the correspondence run are [wire] with the marshaller instantiated by the bytes encoding/json
+   produced, and with a callback they are callback ( plain body ) byte for byte *)
+Theorem c19_jsonp_bytes g cb p mb :
+  cb <> [] -> via_json_handler p = true ->
+  wire_exec mb (body (respond g cb p)) = cb ++ [40%N] ++ wire_exec mb (body (respond g [] p)) ++ [41%N]
+  /\ (forall b, wire_exec mb b = wire (fun _ => mb) b).
+Proof. intros H1 H2. split; [exact (wire_exec_jsonp g cb p mb H1 H2)|intros b; exact (wire_exec_wire mb b)]. Qed.
+
 (* [core] coded errors: a system error answers {code c}, a complex error and an application
    error answer {code c, data message}, all with status 200; for every c <> 0 the client half
    reports an error, with the code itself whenever |c| < 2^53 (beyond that the JSON number
@@ -133,6 +142,7 @@ Proof. repeat split; vm_compute; reflexivity. Qed.
 Print Assumptions c19_content_types.
 Print Assumptions c19_success.
 Print Assumptions c19_jsonp.
+Print Assumptions c19_jsonp_bytes.
 Print Assumptions c19_error_codes.
 Print Assumptions c19_plain_error.
 Print Assumptions c19_unmarshalable.
